@@ -2513,6 +2513,13 @@ class SSHConnection(SSHPacketHandler, asyncio.Protocol):
             if self._auth_final:
                 raise ProtocolError('Unexpected userauth request')
         else:
+            # A new request supersedes any attempt still in progress. Cancel
+            # it now rather than when the task below gets to run, so that it
+            # can't complete for a user name changed by this request
+            if self._auth:
+                self._auth.cancel()
+                self._auth = None
+
             if username != self._username:
                 self.logger.info('Beginning auth for user %s', username)
 
